@@ -194,6 +194,21 @@ where
     fn update_A(&mut self, A: &CscMatrix<T>) {
         _update_values(&mut self.ldlsolver, &mut self.KKT, &self.map.A, &A.nzval);
     }
+
+    #[cfg(feature = "verif")]
+    fn verif_snapshot(&self) -> crate::verif::KktSnapshot<T> {
+        crate::verif::KktSnapshot {
+            m: self.m,
+            n: self.n,
+            p: self.p,
+            kkt: self.KKT.clone(),
+            dsigns: self.dsigns.clone(),
+            map: verif_dump_map(&self.map),
+            hsblocks: self.Hsblocks.clone(),
+            diagonal_regularizer: self.diagonal_regularizer,
+            engine: self.ldlsolver.verif_engine_snapshot(),
+        }
+    }
 }
 
 impl<T> DirectLDLKKTSolver<T>
